@@ -22,7 +22,7 @@ PARTIAL = [
     "loop is gone) still updates the handle's cached category (loop.c:232; the model follows the C). Through a valid handle the handle is "
     "unchanged (C05_failed_set_category_keeps_handle); the stale-handle call is out of contract (Model/StoreContract inContract)",
     "C05_atomic speaks about the relational content, the BEGIN snapshot and the savepoint stack (left-over savepoints are snapshots of the "
-    "unchanged content); the abstraction to the documented model (absW) of a failed in-contract call is covered by C04_refines for all 31 ops (every failing spec function returns its state unchanged)",
+    "unchanged content); the abstraction to the documented model (absW) of a failed in-contract call is covered by C04_refines for all 31 ops (the spec functions return their state unchanged on every failure by inspection of Spec/StoreSpec; not stated as a theorem of its own)",
 ]
 LEVEL_TEXT = ("Proof: for EVERY op of the model (31 ops, arbitrary argument lists — so the offending element at every position — inside or outside "
               "an open iterator's transaction) a non-OK result leaves the content, the BEGIN snapshot and the autocommit status of every CIF unchanged.")
